@@ -48,3 +48,11 @@ Definition tokw_dig (a : Z * kvs) : list Z :=
   match write (ly_of (fst a)) (snd a) with Ok b => tok_dig b | Err e => [err_code e] end.
 Definition parsew_dig (a : Z * kvs) : list Z :=
   match write (ly_of (fst a)) (snd a) with Ok b => parse_dig b | Err e => [err_code e] end.
+
+(* one-byte edits of a fixed text (white-space experiments on the fixture blobs): (0, pos, _) deletes the byte at pos,
+   (1, pos, c) inserts c before pos *)
+Definition edit_apply (blob : list Z) (a : Z * Z * Z) : list Z :=
+  let '(op, pos, c) := a in
+  let n := Z.to_nat pos in
+  if op =? 0 then firstn n blob ++ skipn (S n) blob else firstn n blob ++ c :: skipn n blob.
+Definition ws_edit_dig (blob : list Z) (a : Z * Z * Z) : list Z := parse_dig (edit_apply blob a).
